@@ -14,8 +14,26 @@ This file is not a clause module and must not import vf.
 """
 import ast
 import importlib.util as ilu
+import os
+import subprocess
 import sys
 import warnings
+
+
+def run_driver(mode, so, payload, repo=None, wrapper=(), env_extra=None, timeout=60):
+    """(used by the clause modules) start this file as a separate interpreter; -> (returncode|None, stdout, stderr,
+    timed_out)"""
+    env = dict(os.environ)
+    env.update({"PYTHONDONTWRITEBYTECODE": "1", "PYTHONMALLOC": "malloc"})
+    env.update(env_extra or {})
+    cmd = list(wrapper) + [sys.executable, os.path.abspath(__file__), mode, so] + ([repo] if mode == "api" else [])
+    try:
+        r = subprocess.run(cmd, input=repr(payload), capture_output=True, text=True, env=env, timeout=timeout)
+        return r.returncode, r.stdout, r.stderr, False
+    except subprocess.TimeoutExpired as e:
+        out = e.stdout.decode(errors="replace") if isinstance(e.stdout, bytes) else (e.stdout or "")
+        err = e.stderr.decode(errors="replace") if isinstance(e.stderr, bytes) else (e.stderr or "")
+        return None, out, err, True
 
 
 def _load_ext(so):
